@@ -187,9 +187,100 @@ func runC17(c *Ctx) {
 	c.check(cb == "", "C17.R4", "scroll-clear "+c.K.fnName(x.lf), "exactly the viewportWidth cells of the last viewport line are blanked with (' ', defaultFg, defaultBg)", cb, c.K.pos(x.lf.Pos()))
 }
 
+// writeBytes (C17.R1): VT.Write hands every byte of its argument, in order, to
+// WriteByte: the call sits in a loop whose iteration T passes data[T], T from 0
+// for len(data) iterations (any early exit is an error return), and nothing on
+// the way ranges over a string (that would decode the bytes as UTF-8 runes).
+func (x *vtx) writeBytes() {
+	c, m := x.c, x.m
+	wr := m.lookupMethod("device/tty", "VT", "Write")
+	if wr == nil {
+		c.unresolved("C17.R1", "VT.Write")
+		return
+	}
+	key := "write-bytes " + m.fnName(wr)
+	g := newIG(m, wr, nil)
+	bad := ""
+	where := m.pos(wr.Pos())
+	// (in Write and everything of the package it calls)
+	seenFn := map[*ssa.Function]bool{}
+	work := append([]*ssa.Function(nil), g.Funcs...)
+	for len(work) > 0 {
+		fn := work[len(work)-1]
+		work = work[:len(work)-1]
+		if seenFn[fn] {
+			continue
+		}
+		seenFn[fn] = true
+		for _, in := range stringRanges(fn) {
+			bad = "the byte stream is ranged over as a string (" + m.fnName(fn) + "): bytes >= 0x80 are decoded as UTF-8 runes instead of being written one by one"
+			where = m.pos(in.Pos())
+		}
+		for _, b := range fn.Blocks {
+			for _, in := range b.Instrs {
+				if cc := callCommon(in); cc != nil {
+					if cal := cc.StaticCallee(); cal != nil && cal.Pkg == wr.Pkg && len(cal.Blocks) > 0 {
+						work = append(work, cal)
+					}
+				}
+			}
+		}
+	}
+	var dataP *ssa.Parameter
+	for _, p := range wr.Params {
+		if sl, ok := p.Type().Underlying().(*types.Slice); ok {
+			if bt, ok := sl.Elem().Underlying().(*types.Basic); ok && bt.Kind() == types.Uint8 {
+				dataP = p
+			}
+		}
+	}
+	calls := g.callNodes(x.writeByte)
+	switch {
+	case bad != "":
+	case dataP == nil:
+		bad = "VT.Write has no byte-slice parameter"
+	case len(calls) != 1:
+		bad = fmt.Sprintf("expected one WriteByte call in VT.Write, found %d", len(calls))
+	default:
+		cn := calls[0]
+		arg := g.callArgs(cn)[1]
+		z := &Polyizer{}
+		lf, inLoop := g.loopFormAt(z, g.Ins[cn].Block())
+		if !inLoop {
+			bad = "WriteByte is not called in a loop over the bytes"
+			break
+		}
+		var idx ssa.Value
+		if ld, ok := stripConv(arg).(*ssa.UnOp); ok && ld.Op == token.MUL {
+			if ia, ok := ld.X.(*ssa.IndexAddr); ok && ia.X == ssa.Value(dataP) {
+				idx = ia.Index
+			}
+		}
+		if idx == nil {
+			bad = "the byte handed to WriteByte is not an element of the data argument"
+			lf.Done()
+			break
+		}
+		first, step, okA := lf.affineInT(idx)
+		trips, tok := lf.Trips, lf.TripsOK
+		lf.Done()
+		f0, c0 := first.isConst()
+		s1, c1 := step.isConst()
+		lenData := polyAtom("len(" + z.defaultAtom(dataP) + ")")
+		switch {
+		case !okA || !c0 || f0 != 0 || !c1 || s1 != 1:
+			bad = "the bytes are not handed over in order from the first one (index " + z.Of(idx).String() + ")"
+		case !tok || !trips.equal(lenData):
+			bad = "the loop does not run len(data) times"
+		}
+	}
+	c.check(bad == "", "C17.R1", key, "iteration T hands data[T] to WriteByte, for len(data) iterations; no rune decoding", bad, where)
+}
+
 func (x *vtx) c17r1() {
 	c, m := x.c, x.m
 	c.floor("C17.R1", 5)
+	x.writeBytes()
 	g := newIG(m, x.writeByte, nil)
 	bP := paramNamed(x.writeByte, "b")
 	if bP == nil {
